@@ -551,8 +551,8 @@ func serveOne(o *Outcome, ch *Chooser, logf func(string, ...any), srv *sse.Serve
 func init() {
 	register(&World{
 		Name: "session", Level: "fault_enumeration",
-		Rule: "two scenario kinds. (a) Session: a ResponseWriter shape (Flusher / FlushError / both / wrapped once or twice via Unwrap) and a sequence of up to 8 Send/Flush calls over generated messages; the fault-free Write/Flush call log is recorded and then EVERY position of it is failed in turn; the call log is checked against the protocol (header before first byte and flushed, body = encodings, Flush pushes everything, first error returned). " +
-			"(b) ServeHTTP with a recording Provider: Last-Event-ID header values (absent, empty, valid, multi-line, several), OnSession results (nil, topics, none, reject with/without writing), writers that cannot flush, Subscribe failing. Non-trivial: at least two writer calls or a ServeHTTP scenario; distinct = distinct scenarios.",
+		Rule: "two scenario kinds. (a) Session: a ResponseWriter shape (Flusher / FlushError / both / wrapped once or twice via Unwrap) and a sequence of up to 8 Send/Flush calls over generated messages (incl. lines of 4 KiB and 64 KiB), optionally with a Content-Type already present in the header map; the fault-free Write/Flush call log is recorded and then EVERY position of it is failed in turn; the call log is checked against the protocol (Content-Type right at the call that commits the response head, header before first byte and flushed, body = encodings, Flush pushes everything, first error returned). " +
+			"(b) ServeHTTP with a recording Provider: Last-Event-ID header values (absent, empty, valid, multi-line, several), OnSession results (nil, topics, none, an empty non-nil list, reject with/without writing), a server Logger, writers that cannot flush, Subscribe failing with plain or sentinel-matching errors, one to three requests on the same Server. Non-trivial: at least two writer calls or a ServeHTTP scenario; distinct = distinct scenarios.",
 		Real:        []string{"sse.Upgrade, sse.Session (Send, Flush, doUpgrade), getResponseWriter", "sse.Server.ServeHTTP, getSubscription", "sse.Message.WriteTo"},
 		Stub:        []string{"recording, fault-injecting http.ResponseWriter of a chosen shape", "recording Provider"},
 		Assumptions: []string{"single caller; the simulator dimension is the failing writer only (stated in DESIGN.md)", "'set only once' is observed as: the header holds exactly text/event-stream at every call after the stream started"},
